@@ -98,7 +98,7 @@ func loadWorld(repo string, ss *SpecSet, pkgDirs []string) (*World, error) {
 	}
 	w.m = newMod(ss)
 	w.m.verified = func(path string) bool {
-		return strings.HasPrefix(path, modulePath) || path == "golang.org/x/tools/txtar"
+		return strings.HasPrefix(path, modulePath) || path == "golang.org/x/tools/txtar" || path == "golang.org/x/mod/module"
 	}
 	return w, nil
 }
